@@ -262,7 +262,7 @@ def coq_err(r):
 
 def coq_cubic(p):
     c = p["cub"]
-    return f"(mkcub {cf.q(c[0])} {cf.q(c[1])} {cf.q(c[2])} {cf.q(c[3])} {cf.q(c[4])} {cf.q(c[5])} {cf.z(c[6])})"
+    return f"(mkcub {cf.q(c[0])} {cf.q(c[1])} {cf.q(c[2])} {cf.q(c[3])} {cf.q(c[4])} {cf.q(c[5])} {cf.q(c[6])})"
 
 
 def coq_xevent(e):
@@ -577,7 +577,7 @@ def translate_cc(repo):
 
 def write_extracted_cc(repo, verif):
     import os
-    src = translate_cc(repo)
+    src = translate_cc(repo) + translate_cubic(repo)
     d = os.path.join(verif, "coq", "Gen")
     os.makedirs(d, exist_ok=True)
     p = os.path.join(d, "Extracted_cc.v")
@@ -586,3 +586,152 @@ def write_extracted_cc(repo, verif):
         with open(p, "w") as fh:
             fh.write(src)
     return p
+
+
+# ---- translation of the TCPCubic methods (same file Gen/Extracted_cc.v, second part) ---------------
+# Larger subset: fields of the CUBIC state, parameters and local variables, nested if / if without else,
+# `self.m(args)` statements for translated methods, `x ** 3` (integer exponent: repeated multiplication).
+# Any other `**` makes the enclosing statement -- hence that branch -- the explicit result None
+# ("unmodelled").  Functions return `option cubst`.
+
+CUB_FIELDS = ("mss", "cwnd", "ssthresh", "W_last_max", "epoch_start", "origin_point", "d_min", "W_tcp", "K",
+              "ack_cnt", "cnt", "cwnd_cnt", "beta", "C")
+CUB_METHODS = ["cubic_reset", "cubic_tcp_friendliness", "cubic_update", "timer_expired", "ack_received"]
+CUB_BOOL_CONSTS = ("tcp_friendliness",)
+
+
+class Unmodelled(Exception):
+    pass
+
+
+def _cq(v):
+    f = F(repr(v)) if isinstance(v, float) else F(v)
+    return f"(({f.numerator})%Z # {f.denominator})"
+
+
+def _cx_expr(e, env):
+    import ast
+    if isinstance(e, ast.Attribute) and isinstance(e.value, ast.Name) and e.value.id == "self" and e.attr in CUB_FIELDS:
+        return f"(y_{e.attr} s)"
+    if isinstance(e, ast.Name) and e.id in env:
+        return f"v_{e.id}"
+    if isinstance(e, ast.Constant) and isinstance(e.value, (int, float)) and not isinstance(e.value, bool):
+        return _cq(e.value)
+    if isinstance(e, ast.BinOp) and isinstance(e.op, ast.Pow):
+        if isinstance(e.right, ast.Constant) and isinstance(e.right.value, int) and not isinstance(e.right.value, bool) and e.right.value == 3:
+            b = _cx_expr(e.left, env)
+            return f"(({b} * {b}) * {b})%Q"
+        raise Unmodelled("power with a non-integer exponent")
+    if isinstance(e, ast.BinOp) and type(e.op) in (ast.Add, ast.Sub, ast.Mult, ast.Div):
+        op = {ast.Add: "+", ast.Sub: "-", ast.Mult: "*", ast.Div: "/"}[type(e.op)]
+        return f"({_cx_expr(e.left, env)} {op} {_cx_expr(e.right, env)})%Q"
+    if isinstance(e, ast.Call) and isinstance(e.func, ast.Name) and e.func.id in ("max", "min") and len(e.args) == 2 and not e.keywords:
+        a, b = _cx_expr(e.args[0], env), _cx_expr(e.args[1], env)
+        if e.func.id == "max":
+            return f"(if Qle_bool {b} {a} then {a} else {b})"
+        return f"(if Qle_bool {a} {b} then {a} else {b})"
+    raise TranslatorError("CUBIC expression outside the translated subset: " + ast.dump(e)[:120])
+
+
+def _cx_cond(t, env):
+    import ast
+    if isinstance(t, ast.Attribute) and isinstance(t.value, ast.Name) and t.value.id == "self" and t.attr in CUB_BOOL_CONSTS:
+        return f"g_cubic_init_{t.attr}"
+    if isinstance(t, ast.Compare) and len(t.ops) == 1 and len(t.comparators) == 1:
+        a, b = _cx_expr(t.left, env), _cx_expr(t.comparators[0], env)
+        op = type(t.ops[0])
+        if op is ast.LtE:
+            return f"Qle_bool {a} {b}"
+        if op is ast.GtE:
+            return f"Qle_bool {b} {a}"
+        if op is ast.Lt:
+            return f"negb (Qle_bool {b} {a})"
+        if op is ast.Gt:
+            return f"negb (Qle_bool {a} {b})"
+    raise TranslatorError("CUBIC condition outside the translated subset: " + ast.dump(t)[:120])
+
+
+def _cx_block(stmts, env, methods):
+    """Coq expression of type option cubst with free variable s (and the v_ locals in env)"""
+    import ast
+    if not stmts:
+        return "Some s"
+    st, rest = stmts[0], stmts[1:]
+    if isinstance(st, ast.Expr) and isinstance(st.value, ast.Constant) and isinstance(st.value.value, str):
+        return _cx_block(rest, env, methods)
+    if isinstance(st, ast.Pass):
+        return _cx_block(rest, env, methods)
+    try:
+        if isinstance(st, (ast.Assign, ast.AugAssign)):
+            tgt = st.targets[0] if isinstance(st, ast.Assign) else st.target
+            if isinstance(st, ast.Assign) and len(st.targets) != 1:
+                raise TranslatorError("multiple assignment targets")
+            if isinstance(tgt, ast.Name) and isinstance(st, ast.Assign):
+                val = _cx_expr(st.value, env)
+                return f"(let v_{tgt.id} := {val} in {_cx_block(rest, env | {tgt.id}, methods)})"
+            if not (isinstance(tgt, ast.Attribute) and isinstance(tgt.value, ast.Name) and tgt.value.id == "self"
+                    and tgt.attr in CUB_FIELDS and tgt.attr not in ("mss", "beta", "C")):
+                raise TranslatorError("CUBIC assignment target outside the translated subset: " + ast.dump(tgt)[:120])
+            val = _cx_expr(st.value, env)
+            if isinstance(st, ast.AugAssign):
+                if not isinstance(st.op, ast.Add):
+                    raise TranslatorError("augmented assignment other than +=")
+                val = f"((y_{tgt.attr} s) + {val})%Q"
+            return f"(let s := sety_{tgt.attr} s {val} in {_cx_block(rest, env, methods)})"
+        if isinstance(st, ast.Expr) and isinstance(st.value, ast.Call) and isinstance(st.value.func, ast.Attribute) \
+                and isinstance(st.value.func.value, ast.Name) and st.value.func.value.id == "self" \
+                and st.value.func.attr in methods and not st.value.keywords:
+            args = " ".join(_cx_expr(a, env) for a in st.value.args)
+            return (f"(match g_TCPCubic_{st.value.func.attr} s {args} with Some s => {_cx_block(rest, env, methods)} | None => None end)")
+        if isinstance(st, ast.If):
+            c = _cx_cond(st.test, env)
+            return (f"(match (if {c} then {_cx_block(st.body, env, methods)} else {_cx_block(st.orelse, env, methods)}) with "
+                    f"Some s => {_cx_block(rest, env, methods)} | None => None end)")
+    except Unmodelled:
+        return "None"
+    raise TranslatorError("CUBIC statement outside the translated subset: " + ast.dump(st)[:120])
+
+
+def translate_cubic(repo):
+    import ast
+    import os
+    path = os.path.join(repo, "onl", "packet", "tcp_generator.py")
+    tree = ast.parse(open(path).read())
+    classes = {n.name: n for n in tree.body if isinstance(n, ast.ClassDef)}
+    if "TCPCubic" not in classes:
+        raise TranslatorError("class TCPCubic not found")
+    cls = classes["TCPCubic"]
+    fns = {n.name: n for n in cls.body if isinstance(n, ast.FunctionDef)}
+    # constants assigned in __init__
+    consts = {}
+    for st in fns["__init__"].body:
+        if isinstance(st, (ast.Assign, ast.AnnAssign)):
+            tgt = st.targets[0] if isinstance(st, ast.Assign) else st.target
+            if isinstance(tgt, ast.Attribute) and isinstance(tgt.value, ast.Name) and tgt.value.id == "self" \
+                    and isinstance(st.value, ast.Constant):
+                consts[tgt.attr] = st.value.value
+    for k in ("beta", "C", "tcp_friendliness"):
+        if k not in consts:
+            raise TranslatorError(f"TCPCubic.__init__ does not assign a constant to self.{k}")
+    out = ["", "(* ---- TCPCubic ---- *)", "From Coq Require Import Bool.",
+           "Record cubst := mkgc { " + "; ".join(f"y_{f} : Q" for f in CUB_FIELDS) + " }."]
+    for f in CUB_FIELDS:
+        args = " ".join("v" if g == f else f"(y_{g} s)" for g in CUB_FIELDS)
+        out.append(f"Definition sety_{f} (s : cubst) (v : Q) : cubst := mkgc {args}.")
+    out.append(f"Definition g_cubic_init_beta : Q := {_cq(consts['beta'])}.")
+    out.append(f"Definition g_cubic_init_C : Q := {_cq(consts['C'])}.")
+    if not isinstance(consts["tcp_friendliness"], bool):
+        raise TranslatorError("self.tcp_friendliness is not a boolean constant")
+    out.append(f"Definition g_cubic_init_tcp_friendliness : bool := {'true' if consts['tcp_friendliness'] else 'false'}.")
+    done = []
+    for mname in CUB_METHODS:
+        if mname not in fns:
+            raise TranslatorError(f"TCPCubic.{mname} not found")
+        fn = fns[mname]
+        if fn.decorator_list or fn.args.vararg or fn.args.kwarg or fn.args.kwonlyargs:
+            raise TranslatorError(f"TCPCubic.{mname}: unsupported signature")
+        params = [a.arg for a in fn.args.args][1:]
+        ptxt = "".join(f" (v_{p} : Q)" for p in params)
+        out.append(f"Definition g_TCPCubic_{mname} (s : cubst){ptxt} : option cubst := {_cx_block(fn.body, set(params), tuple(done))}.")
+        done.append(mname)
+    return "\n".join(out) + "\n"
